@@ -22,6 +22,9 @@
                                          followed by a forward walk while the range still contains the prefix.  SST tables
                                          are shared wholesale between the new operators: foreign entries stay in them and
                                          are hidden only because an operator never asks for a key (group) it does not own.
+     dkv/db.go UpdateRetainedCheckpoints, when the job has completed a checkpoint and goes on (jobs.Job: retained = [that id]) every operator
+     dkv/recovery/checkpoint_list.go     drops the composite checkpoint it was restored from and deletes that checkpoint's WAL files --
+                                         files that the other operators restored from the same old checkpoint delete as well (Resume)
      workers/operator/keyed_state_store.go GetState = ScanPrefix(<group><0x00><len><subject key>)
      workers/operator/timer_store.go       timers of own key group g = ScanPrefix(<group g><0x01>); firing deletes the entry
 
